@@ -103,17 +103,19 @@ func ruleUnitDefs(r *Report) {
 		h.Check(sz == fmt.Sprint(int64(1)<<shift), pkg+".chunkSize", "-", "= 1<<chunkShift", pkg+".chunkSize is "+sz)
 		h.Check(bsz == fmt.Sprint(int64(1)<<(shift-6)), pkg+".bitmapSize", "-", "= chunkSize/64", pkg+".bitmapSize is "+bsz)
 	}
-	// shifts inside the defining functions
+	// scaling inside the defining functions: every shift / multiplication / division / mask by a
+	// constant, brought to the form "× or ÷ or mod 2^k", uses the block size (resp. the words per
+	// block) and nothing else — whatever the spelling
 	type def struct {
-		fn     string
-		shifts []int64
+		fn    string
+		scale int64
 	}
 	for _, d := range []def{
-		{"commit.ChunkAt", []int64{shift}},
-		{"(commit.Chunk).Min", []int64{shift}},
-		{"(*commit.Reader).IndexAtChunk", []int64{shift, shift}},
-		{"(commit.Chunk).OfBitmap", []int64{shift - 6, shift - 6}},
-		{"(*commit.Buffer).writeChunk", []int64{shift}},
+		{"commit.ChunkAt", int64(1) << shift},
+		{"(commit.Chunk).Min", int64(1) << shift},
+		{"(*commit.Reader).IndexAtChunk", int64(1) << shift},
+		{"(commit.Chunk).OfBitmap", int64(1) << (shift - 6)},
+		{"(*commit.Buffer).writeChunk", int64(1) << shift},
 	} {
 		fn := r.Anchor(d.fn)
 		if fn == nil {
@@ -121,40 +123,40 @@ func ruleUnitDefs(r *Report) {
 		}
 		var got []int64
 		allInstrs(fn, func(ins ssa.Instruction) {
-			if bo, ok := ins.(*ssa.BinOp); ok && (bo.Op == token.SHL || bo.Op == token.SHR) {
-				if c, ok := constInt(bo.Y); ok {
-					got = append(got, c)
-				} else {
-					got = append(got, -1)
-				}
+			bo, ok := ins.(*ssa.BinOp)
+			if !ok {
+				return
+			}
+			switch bo.Op {
+			case token.SHL, token.SHR, token.MUL, token.QUO, token.REM, token.AND:
+			default:
+				return
+			}
+			if _, isBool := bo.Type().Underlying().(*types.Basic); !isBool {
+				return
+			}
+			if op, _, _, c, isC := canonBin(bo); isC && (op == token.QUO || op == token.MUL || op == token.REM) {
+				got = append(got, c)
+			} else if bo.Op == token.SHL || bo.Op == token.SHR {
+				got = append(got, -1) // shift by a variable
 			}
 		})
-		ok := len(got) == len(d.shifts)
-		if ok {
-			for i := range got {
-				if got[i] != d.shifts[i] {
-					ok = false
-				}
+		ok := len(got) > 0
+		for _, g := range got {
+			if g != d.scale {
+				ok = false
 			}
 		}
-		h.Check(ok, d.fn, r.P.Pos(fn.Pos()), fmt.Sprintf("shifts by %v", got), fmt.Sprintf("shifts by %v, expected %v", got, d.shifts))
+		h.Check(ok, d.fn, r.P.Pos(fn.Pos()), fmt.Sprintf("scales by %v", got), fmt.Sprintf("scales by %v, expected only %d", got, d.scale))
 	}
 	// Max = Min + chunkSize - 1
 	if fn := r.Anchor("(commit.Chunk).Max"); fn != nil {
 		ok := false
 		for _, ret := range returnsOf(fn) {
 			if len(ret.Results) == 1 {
-				// (Min() + 16384) - 1
-				if sub, isB := ret.Results[0].(*ssa.BinOp); isB && sub.Op == token.SUB {
-					if one, isC := constInt(sub.Y); isC && one == 1 {
-						if add, isA := sub.X.(*ssa.BinOp); isA && add.Op == token.ADD {
-							if sz, isC := constInt(add.Y); isC && sz == int64(1)<<shift {
-								if c, isCall := add.X.(*ssa.Call); isCall && calleeIs(&c.Call, "(commit.Chunk).Min") {
-									ok = true
-								}
-							}
-						}
-					}
+				calls, k, lin := linearForm(ret.Results[0])
+				if lin && len(calls) == 1 && calleeIs(&calls[0].Call, "(commit.Chunk).Min") && k == int64(1)<<shift-1 {
+					ok = true
 				}
 			}
 		}
@@ -187,4 +189,32 @@ func ruleUnitDefs(r *Report) {
 		}
 	}
 	_ = strings.TrimSpace
+}
+
+// linearForm reads v as (sum of calls, each with coefficient +1) + constant.
+func linearForm(v ssa.Value) (calls []*ssa.Call, k int64, ok bool) {
+	switch x := strip(v).(type) {
+	case *ssa.Const:
+		c, isC := constInt(x)
+		return nil, c, isC
+	case *ssa.Call:
+		return []*ssa.Call{x}, 0, true
+	case *ssa.BinOp:
+		if x.Op != token.ADD && x.Op != token.SUB {
+			return nil, 0, false
+		}
+		c1, k1, ok1 := linearForm(x.X)
+		c2, k2, ok2 := linearForm(x.Y)
+		if !ok1 || !ok2 {
+			return nil, 0, false
+		}
+		if x.Op == token.SUB {
+			if len(c2) > 0 {
+				return nil, 0, false
+			}
+			return c1, k1 - k2, true
+		}
+		return append(c1, c2...), k1 + k2, true
+	}
+	return nil, 0, false
 }
